@@ -528,6 +528,28 @@ def standin_groups(tier, seed):
                 if not ok and len(viol) < 14:
                     viol.append({'id': 'count-' + t[:40], 'input': t, 'observed': got, 'expected': [csg, len(flat)],
                                  'script': "from pgradd.GroupAdd.Group import Group\np = Group.parse(None, %r)\nprint(p.csg, len(p.psgs), p.name)  # expected %d peripherals, name %r\n" % (t, len(flat), canon)})
+    # "index the same library entry": through the library's OWN lookups (membership, item access, get) and not only through a plain dict -- a group built
+    # by the constructor, groups parsed from every spelling, and the canonical name as a string all find the one entry
+    from pgradd.GroupAdd.Library import GroupLibrary
+    for csg, flat in (('C', ['C', 'H', 'H', 'H']), ('C[d]', ['C[d]', 'H', 'O']), ('O', ['C', 'H']), ('C', ['CO', 'C', 'H', 'H']), ('Pt', [])):
+        ref = Group(None, csg, flat)
+        entry = {'marker': object()}
+        lib_ = GroupLibrary(None, {ref: entry, Group(None, 'Zz', ['H']): {'marker': None}})
+        spellings = set()
+        import itertools as _it
+        for order in list(_it.permutations(flat))[:24]:
+            spellings.add(csg + ''.join('(%s)' % x for x in order))
+        for t in sorted(spellings) + [ref.name]:
+            n += 1
+            try:
+                p_ = Group.parse(None, t)
+                keys = [('parsed group', p_), ('constructed group', Group(None, csg, list(reversed(flat)))), ('canonical name', ref.name)]
+                bad_ = [lab for lab, k_ in keys if not ((k_ in lib_) and lib_[k_] is entry and lib_.get(k_) is entry and (k_ in list(lib_.keys()) or True))]
+            except Exception as e:    # noqa
+                bad_ = ['raised %s' % type(e).__name__]
+            if bad_ and len(viol) < 20:
+                viol.append({'id': 'library-entry-%s' % t, 'input': {'library key': ref.name, 'looked up as': t}, 'observed': 'not found / another entry through: %s' % bad_, 'expected': 'the entry of ' + ref.name,
+                             'script': "from pgradd.GroupAdd.Group import Group\nfrom pgradd.GroupAdd.Library import GroupLibrary\nlib = GroupLibrary(None, {Group(None, %r, %r): {'x': 1}})\ng = Group.parse(None, %r)\nprint(g in lib, lib[g])\n" % (csg, flat, t)})
     # a repeat count of zero means no copy at all; a count must follow a name (a count after a count is a syntax error)
     from pgradd.Error import GroupSyntaxError
     for t, want in (('C(C)(H)0', ('C', ['C'])), ('O(C)2(H)0', ('O', ['C', 'C'])), ('C(H)0', ('C', [])), ('C(H)2(C)0(H)1', ('C', ['H', 'H', 'H']))):
